@@ -12,6 +12,12 @@
 //  * allocation counting: the sanitizer's weak malloc hook (covers malloc/calloc/realloc/operator new) counts
 //    every allocation made while the innermost instrumented frame is a library function.  The first few are
 //    remembered with the name of that function.
+//  * non-local exits: a harness may leave library frames with longjmp (C17 arms the "value fits" contract of
+//    to_ulong that way), which skips their __cyg_profile_func_exit.  Every entry therefore remembers the frame
+//    address of its function; entering or leaving a function first drops every entry that cannot be a live
+//    ancestor (frame address <= the current function's), and `longjmp` is wrapped (-Wl,--wrap=longjmp,…): between
+//    the jump and the next enter/exit event the innermost frame is unknown and allocations are not attributed
+//    (the landing frame is caller code by construction: library code contains no setjmp).
 //  * at exit one line is appended to $C02_STATS: `guarded_calls=<entries into the library from caller code>
 //    allocs=<n> new_calls=0 where=<function>;…`.
 //  * poisoned objects: `-ftrivial-auto-var-init=pattern` fills every automatic object of the harness (the
@@ -36,6 +42,9 @@ inline bool in_hook                 = false; // the hooks themselves must not be
 inline unsigned long guarded_calls  = 0;
 inline unsigned long allocs         = 0;
 inline void const* cur_fn[MAXD];
+inline void const* frame[MAXD];     // frame address of the instrumented function of each entry
+inline bool jumped = false;         // a longjmp happened and no enter/exit event has re-synchronised the stack yet
+inline unsigned long jumps = 0;
 inline char where[8][256];
 inline int nwhere = 0;
 
@@ -76,7 +85,7 @@ C02_NOINSTR inline bool is_lib(void const* fn)
 
 C02_NOINSTR inline void on_alloc()
 {
-    if (in_hook || top == 0 || top > MAXD || stack[top - 1] == 0) return;
+    if (in_hook || jumped || top == 0 || top > MAXD || stack[top - 1] == 0) return;
     in_hook = true;
     ++allocs;
     if (nwhere < 8) {
@@ -98,7 +107,7 @@ C02_NOINSTR inline void write_stats()
     char const* path = std::getenv("C02_STATS");
     if (path == nullptr) return;
     if (std::FILE* f = std::fopen(path, "a")) {
-        std::fprintf(f, "guarded_calls=%lu allocs=%lu new_calls=0 where=", guarded_calls, allocs);
+        std::fprintf(f, "guarded_calls=%lu allocs=%lu new_calls=0 jumps=%lu where=", guarded_calls, allocs, jumps);
         for (int k = 0; k < nwhere; ++k) std::fprintf(f, "%s%s", k ? ";" : "", where[k]);
         std::fprintf(f, "%s\n", nwhere ? "" : "-");
         std::fclose(f);
@@ -112,17 +121,38 @@ inline AtExit at_exit;
 
 } // namespace c02obs
 
+namespace c02obs {
+// drops the entries that cannot be live ancestors of a function whose frame address is `fa` (the stack grows down)
+C02_NOINSTR inline void resync(void const* fa)
+{
+    while (top > 0 && top <= MAXD && frame[top - 1] <= fa) --top;
+    jumped = false;
+}
+} // namespace c02obs
+
 extern "C" {
+void __real_longjmp(void*, int) __attribute__((noreturn));
+void __real__longjmp(void*, int) __attribute__((noreturn));
+void __real_siglongjmp(void*, int) __attribute__((noreturn));
+void __real___longjmp_chk(void*, int) __attribute__((noreturn));
+C02_NOINSTR __attribute__((weak, noreturn)) void __wrap_longjmp(void* e, int v) { c02obs::jumped = true; ++c02obs::jumps; __real_longjmp(e, v); }
+C02_NOINSTR __attribute__((weak, noreturn)) void __wrap__longjmp(void* e, int v) { c02obs::jumped = true; ++c02obs::jumps; __real__longjmp(e, v); }
+C02_NOINSTR __attribute__((weak, noreturn)) void __wrap_siglongjmp(void* e, int v) { c02obs::jumped = true; ++c02obs::jumps; __real_siglongjmp(e, v); }
+C02_NOINSTR __attribute__((weak, noreturn)) void __wrap___longjmp_chk(void* e, int v) { c02obs::jumped = true; ++c02obs::jumps; __real___longjmp_chk(e, v); }
+
 C02_NOINSTR __attribute__((weak)) void __cyg_profile_func_enter(void* fn, void*)
 {
     using namespace c02obs;
     if (in_hook) return;
     in_hook = true;
+    void const* fa = __builtin_frame_address(1); // the frame of the function being entered (-fno-omit-frame-pointer)
+    if (top <= MAXD) resync(fa);
     if (top < MAXD) {
         bool lib = is_lib(fn);
         if (lib && (top == 0 || stack[top - 1] == 0)) ++guarded_calls;
         stack[top]  = lib ? 1 : 0;
         cur_fn[top] = fn;
+        frame[top]  = fa;
     } else {
         ++overflow;
     }
@@ -133,7 +163,11 @@ C02_NOINSTR __attribute__((weak)) void __cyg_profile_func_exit(void*, void*)
 {
     using namespace c02obs;
     if (in_hook) return;
-    if (top > 0) --top;
+    if (top > MAXD) { // deeper than the recorded part: plain counting
+        --top;
+        return;
+    }
+    resync(__builtin_frame_address(1)); // pops the entry of the function being left and anything staler
 }
 // the sanitizer run-time calls this weak hook after every successful allocation
 C02_NOINSTR __attribute__((weak)) void __sanitizer_malloc_hook(void const volatile*, std::size_t) { c02obs::on_alloc(); }
